@@ -195,6 +195,8 @@ type Sess struct {
 	Steps int
 	// options
 	SkipStructure bool
+	RotateSeed    bool // every Open is given a different (deterministic) answer should it draw a fresh hash seed
+	nOpen         int
 	// observations of the last Apply
 	LastCompact    pogreb.CompactionResult
 	ReopenLogStart int // log index at which the Open of the last Reopen started
@@ -220,6 +222,10 @@ func (s *Sess) NextValue() string {
 
 // OpenDB opens the database on the session's file system.
 func (s *Sess) OpenDB() error {
+	if s.RotateSeed {
+		s.nOpen++
+		PinSeed(s.Seed + uint32(s.nOpen)*0x9E3779B9)
+	}
 	db, err := pogreb.Open(DBPath, s.Cfg.Options(s.FS))
 	if err != nil {
 		return err
